@@ -23,6 +23,9 @@ SETUPS = {
     "I6": BASE + [dict(name="RegPk", id="C", key="k3", signers=["k3"]),
                   dict(name="AddNewAuthKey", id="C", key="k1", idx=1, signers=["k3"]),
                   dict(name="RemoveKeyIdx", id="C", key="k3", idx=2, signers=["k1"])],
+    "I7": BASE + [dict(name="RegPk", id="C", key="k3", signers=["k3"]),
+                  dict(name="AddNewAuthKey", id="C", key="k1", idx=1, signers=["k3"]),
+                  dict(name="RemoveAuthKey", id="C", target=2, idx=1, signers=["k3"])],
     "I5": BASE + [dict(name="RegCtrl", id="C", ctrl={"kind": "id", "id": "A", "key": "", "members": [], "t": 0},
                        proof={"kind": "idx", "cid": "A", "idx": 1, "sg": []}, signers=["k1"])],
 }
@@ -43,6 +46,8 @@ def which_init(st):
         return "I2"
     if c["keys"] and c["keys"][0]["revoked"]:
         return "I6"
+    if len(c["keys"]) == 2 and c["rec"]["kind"] == "none" and c["ctrl"]["kind"] == "none":
+        return "I7"
     if c["rec"]["kind"] == "group":
         return "I3"
     if c["rec"]["kind"] == "old":
@@ -68,7 +73,7 @@ def body(b):
 
 
 def norm(idst):
-    return {"st": idst["st"], "keys": [{"key": k["key"], "revoked": k["revoked"], "auth": k["auth"]} for k in idst["keys"]],
+    return {"st": idst["st"], "keys": [{"key": k["key"], "revoked": k["revoked"], "auth": k["auth"], "pklist": k["pklist"]} for k in idst["keys"]],
             "ctrl": body(idst["ctrl"]), "rec": body(idst["rec"]), "attrs": sorted(idst["attrs"])}
 
 
